@@ -1,1 +1,45 @@
 // verif hook module for src/base.rs (compiled only with --cfg cberner_raptorq_verif)
+#![allow(dead_code, unused_imports)]
+use super::*;
+
+#[cfg(kani)]
+pub(crate) mod kani_oti {
+    use super::super::*;
+
+    // C19 witness finder (refusal half): for every parameter set violating the symbols-per-block limit
+    // (stated without division: F > 56403 * Z * T  <=>  ceil(ceil(F/T)/Z) > 56403) the constructor must refuse.
+    #[kani::proof]
+    pub(crate) fn oti_new_refuses_too_many_symbols() {
+        let f: u64 = kani::any();
+        let t: u16 = kani::any();
+        let z: u8 = kani::any();
+        let n: u16 = kani::any();
+        let al: u8 = kani::any();
+        kani::assume(t > 0 && z > 0 && al > 0);
+        kani::assume(f <= 942574504275);
+        kani::assume(t % (al as u16) == 0);
+        kani::assume((f as u128) > 56403u128 * (z as u128) * (t as u128));
+        let _ = ObjectTransmissionInformation::new(f, t, z, n, al);
+        assert!(false, "MARKER C19 accepted more than 56403 symbols per source block");
+    }
+
+    // C19: an accepted configuration reports exactly the values it was given (loop-free, complete)
+    #[kani::proof]
+    pub(crate) fn oti_new_reports_arguments() {
+        let f: u64 = kani::any();
+        let t: u16 = kani::any();
+        let z: u8 = kani::any();
+        let n: u16 = kani::any();
+        let al: u8 = kani::any();
+        kani::assume(al > 0);
+        // a cheap sufficient condition for acceptance keeps CBMC away from the division-heavy part
+        kani::assume(f <= 56403 && t > 0 && z > 0 && t % (al as u16) == 0);
+        let c = ObjectTransmissionInformation::new(f, t, z, n, al);
+        assert!(c.transfer_length() == f, "C19 transfer_length reported");
+        assert!(c.symbol_size() == t, "C19 symbol_size reported");
+        assert!(c.source_blocks() == z, "C19 source_blocks reported");
+        assert!(c.sub_blocks() == n, "C19 sub_blocks reported");
+        assert!(c.symbol_alignment() == al, "C19 alignment reported");
+        kani::cover!(f == 56403 && t == 8 && al == 8, "reach");
+    }
+}
